@@ -601,6 +601,45 @@ func (d *driver) runScenario(sc *Scenario) (err error) {
 			d.hammer(st)
 		case "storm":
 			d.storm(st)
+		case "tamper":
+			// the session's record in Redis is damaged / is one written by another version of the service: the field that holds
+			// the creation time is removed, or rewritten as epoch seconds, or as garbage (found by its value, not by its name)
+			n := 0
+			if sid, ok := d.nthSid(st.Cookie); ok {
+				for _, m := range d.env.mr {
+					for db := 0; db < 3; db++ {
+						mdb := m.DB(db)
+						for _, k := range mdb.Keys() {
+							if k != sid && !strings.HasSuffix(k, sid) {
+								continue
+							}
+							fields, err := mdb.HKeys(k)
+							if err != nil {
+								continue
+							}
+							field, when := "", time.Time{}
+							for _, f := range fields {
+								if t, err := time.Parse(time.RFC3339Nano, mdb.HGet(k, f)); err == nil && (field == "" || t.Before(when)) {
+									field, when = f, t
+								}
+							}
+							if field == "" {
+								continue
+							}
+							switch st.How {
+							case "dropCreated":
+								mdb.HDel(k, field)
+							case "epochCreated":
+								mdb.HSet(k, field, fmt.Sprintf("%d", when.Unix()))
+							default:
+								mdb.HSet(k, field, "yesterday at noon")
+							}
+							n++
+						}
+					}
+				}
+			}
+			d.rec.emit(map[string]any{"ev": "noop", "c": fmt.Sprintf("tamper:%s:%d", st.How, n)})
 		case "flood":
 			// st.D requests without a cookie, each of which makes the service create a session (a busy service holds thousands);
 			// only the count is logged
